@@ -1,7 +1,5 @@
-; Axis order of a tile matrix set: decided by trusted library code (EPSG table, regular expressions). The contracts
-; only need that the verdict is a function of the CRS / of the ordered-axes list.
+; Axis order from the ordered-axes list: decided by trusted code (regular expressions); the contracts only need that
+; the verdict is a function of the list. (The verdict from the CRS is defined in tms20/contracts_verif.go.)
 ; sorts: Iface Sl_String
-(declare-fun latlonCRS (Iface) Bool)
-(declare-fun crsErr (Iface) Bool)
 (declare-fun latlonAxes (Sl_String) Bool)
 (declare-fun axesErr (Sl_String) Bool)
